@@ -3,6 +3,7 @@ import functools
 import itertools
 import operator
 import six
+import threading
 try:
     from functools import lru_cache
 except ImportError:  # pragma: no cover
@@ -245,12 +246,19 @@ hs_condOr = (hs_condAnd + ZeroOrMore(hs_kwOr + hs_condAnd)).setParseAction(_fold
 hs_filter <<= hs_condOr
 
 
+_PARSE_LOCK = threading.RLock()
+
+
 def parse_filter(filter):
     '''
     Return an AST tree of filter.
     Can be used to generate other language (SQL, etc.)
     '''
-    return FilterAST(hs_filter.parseString(filter, parseAll=True)[0])
+    # A pyparsing grammar is shared mutable state (it probes the arity of its
+    # parse actions and streamlines itself during the first parses): one
+    # thread at a time.
+    with _PARSE_LOCK:
+        return FilterAST(hs_filter.parseString(filter, parseAll=True)[0])
 
 
 ## --- Generate python to apply filter
